@@ -1,20 +1,30 @@
 import BppModel.Proto
 import BppModel.Transform
 import BppModel.Reparam
+import BppModel.ReparamObj
 /-
 Driver for C11 (TransformedParameter.h, ReparametrizationFunctionWrapper).
 Registers t0..t3 hold transformed parameters.  The model runs at `Float`
 (bit-exact tie); the verdicts are the Float shadows of the theorems of
 lean/BppProofs/Props/C11.lean evaluated on the *implementation's* answers:
 round trip (`*_roundtrip`), `back_in_domain`, monotonicity (`strict_mono`) and
-finite differences against `d1`, `d2` (`d1_is_derivative`, `d2_is_derivative`); and of
-lean/BppProofs/Props/C11Wrapper.lean for the wrapper ops (`w.new`, `w.newsub` = second constructor,
-`w.set`, `w.touch` = `f()` on current values, `w.d1`, `w.d2`, `w.fd`, `w.fdx`):
-`wrap_preserves_values`, `wrap_nudge`, `set_never_raises`, `set_sync`, `all_histories_accepted`
-(`wrap_near`), `wrapper_back_in_domain`, `chain_rule_1/2/2_cross`.
+finite differences against `d1`, `d2` (`d1_is_derivative`, `d2_is_derivative`), `clone_carries`
+(`t.clone`); and of lean/BppProofs/Props/C11Wrapper.lean / C11Copy.lean for the wrapper ops.
+
+Since round 3 the wrappers are *objects* (`BppModel/ReparamObj.lean`): function registers f0 f1,
+wrapper registers w0..w3 of the three classes, a current register.  `w.new` / `w.newsub` (drop
+everything, one function, one class-2 wrapper), `f.new`, `w.mk` (either constructor, any class, any
+sub-list), `w.use`, `w.clone` / `w.copy` / `w.assign` (`copy_carries`, `assign_carries`:
+`copyVerdict`), `w.names` (`every_wrapper_aligned`), `w.set`, `w.touch` = `f()` on current values
+(`wrap_f_eq`, `back_in_domain`, `wrap_sync`, `wrap_near`, `wrap_untouched`, `set_never_raises`:
+`setVerdict` on the slot views `Wr.view?` before and after, following `interleaved_eval`), `w.get`
+(`wrap_f_eq`, `get_is_pure`, shared function), `w.pv` / `w.all` / `w.match` / `w.pvs` / `w.fire`
+(`inherited_private` = `inherited_setters_stay_private`), `w.en` (`enable_delegates`), `w.d1`, `w.d2`
+(`derivative_defined`), `w.fd`, `w.fd1`, `w.fdx` (`chain_rule_1/2/2_cross`), `f.set` (the owner moves
+the function); `wrap_preserves_values`, `wrap_nudge` at every construction.
 -/
 namespace Bpp.Drive.C11
-open Bpp Bpp.Proto Bpp.Transform Bpp.Reparam
+open Bpp Bpp.Proto Bpp.Transform Bpp.Reparam Bpp.ReparamObj
 
 abbrev F := Float
 
@@ -43,14 +53,18 @@ structure Ctx where
   sel : List Nat
   base : List Float
 
+/-- the objects of a case: a world of function objects and wrapper objects (`BppModel/ReparamObj`),
+the polynomial coefficients of each function, and the registers of the protocol: function registers
+`f0 f1`, wrapper registers `w0..w3` (index of the wrapper in the world and its class: 0 =
+ReparametrizationFunctionWrapper, 1 = ...DerivableFirstOrderWrapper, 2 = ...DerivableSecondOrderWrapper),
+and the current wrapper register (`w.use`) the single-wrapper operations act on -/
 structure St where
   t : Array (Option (TP F)) := Array.replicate 4 none
-  /-- the wrapper and the wrapped polynomial -/
-  w : Option (W F × Ctx) := none
-  /-- are the hypotheses of `wrap_preserves_values` / `all_histories_accepted` other than "the value
-  is accepted by its constraint" satisfied (`quantOk`: bounds within the property's quantifier,
-  finite intervals roomy)? -/
-  wf : Bool := true
+  world : World F := {}
+  cs : Array (List (Coef F)) := #[]
+  freg : Array (Option Nat) := Array.replicate 2 none
+  wreg : Array (Option (Nat × Nat)) := Array.replicate 4 none
+  cur : Nat := 0
 
 /-! ### executable predicates (Float shadows of the theorems) -/
 
@@ -240,10 +254,11 @@ def splitSemi (t : List String) : List (List String) := splitTok ";" t
 constraint wrapping succeeds, the function's parameters are untouched and each transformed parameter
 back-transforms to `corrected tiny shape value` (to rounding), which is the initial value up to
 `2 tiny` when `init_` moves it, exactly the initial value otherwise, and which the constraint accepts -/
-def newWVerdict (impl : Option (List String)) (c : Ctx) (all : List (Shape F × F)) : String :=
-  -- `ps`: the parameters the wrapper reparametrises, in its order
-  let ps := c.sel.filterMap (fun i => all[i]?)
-  if !(ps.all (fun (shp, _) => quantOk shp)) then "-" else
+def newWVerdict (impl : Option (List String)) (ps all : List (Shape F × F)) (agree : Bool) : String :=
+  -- `ps`: the parameters the wrapper reparametrises (`functionParameters_`), in its order; `all`: the
+  -- function's own parameters; `agree`: the list given to the second constructor carried the
+  -- function's own values (hypothesis of `newSub_refines_init`)
+  if !(ps.all (fun (shp, _) => quantOk shp)) || !agree then "-" else
   match impl with
   | none => "-"
   | some ("exc:constraint" :: _) => "FAIL:wrap_preserves_values"
@@ -263,11 +278,16 @@ def newWVerdict (impl : Option (List String)) (c : Ctx) (all : List (Shape F × 
       | _, _ => "FAIL:parse"
     | _ => "FAIL:parse"
 
-/-- verdict of `w.set`: the value is the function at its own point (`wrap_f_eq`), that point
+/-- verdict of `w.set` (through any wrapper register: an original, a copy, the target of an
+assignment; `before` / `after` are the slot views `Wr.view?` of the model wrapper over the shared
+function before and after the update): the value is the function at its own point (`wrap_f_eq`), that point
 satisfies the constraints (`back_in_domain`), named coordinates are the back-transformed ones
 (`set_sync`; when no named coordinate changed nothing is recomputed and a value moved by `init_` may
 still be up to `2 tiny` off), every coordinate is within `2 tiny` of the back-transformed one
 (`all_histories_accepted`), the coordinates that are not named are untouched -/
+def nearB (s : Slot F) : Bool :=
+  fabs (s.fn - s.tp.getOriginal pi) ≤ two44 * shapeMag s.shape s.fn + 2.0 * tiny
+
 def setVerdict (impl : Option (List String)) (c : Ctx) (before after : W F) (upd : List (Option F)) (wf : Bool) : String :=
   match impl with
   | none => "-"
@@ -286,7 +306,10 @@ def setVerdict (impl : Option (List String)) (c : Ctx) (before after : W F) (upd
         else if !((after.zip ps).all (fun (s, p) => s.shape.isCorrect p)) then "FAIL:back_in_domain"
         else if wf && !(((after.zip ps).zip upd).all (fun ((s, p), u) => u.isNone ||
             fabs (p - s.tp.getOriginal pi) ≤ two44 * shapeMag s.shape p + slack)) then "FAIL:wrap_sync"
-        else if wf && !((after.zip ps).all (fun (s, p) =>
+        -- a coordinate that is not named stays as near the function's value as it was (another
+        -- wrapper of the same function may have moved the function: `interleaved_eval`)
+        else if wf && !((((after.zip ps).zip upd).zip before).all (fun (((s, p), u), s0) =>
+            !(u.isSome || nearB s0) ||
             fabs (p - s.tp.getOriginal pi) ≤ two44 * shapeMag s.shape p + 2.0 * tiny)) then "FAIL:wrap_near"
         else if !(((before.zip ps).zip upd).all (fun ((s, p), u) => u.isSome || sh p == sh s.fn)) then "FAIL:wrap_untouched"
         -- the function's parameters the wrapper was not given never move
@@ -296,24 +319,26 @@ def setVerdict (impl : Option (List String)) (c : Ctx) (before after : W F) (upd
       | _, _ => "FAIL:parse"
     | _ => "FAIL:parse"
 
+
 def excStr : Exc → String
   | .constraint => "exc:constraint"
   | .notfound => "exc:notfound"
+  | .ub => "exc:ub"
 
 /-- three successive single-coordinate updates (`x-h`, `x+h`, `x`), as the harness does -/
-def probe3 (w : W F) (i : Nat) (x h : F) : Except Exc (W F × W F × W F) := do
-  let n := w.length
-  let wm ← Reparam.set pi w (single n i (x - h))
-  let wp ← Reparam.set pi wm (single n i (x + h))
-  let w0 ← Reparam.set pi wp (single n i x)
-  pure (wm, wp, w0)
+def probe3 (f : Fn F) (w : Wr F) (n : Nat) (x h : F) :
+    Except Exc ((Fn F × Wr F) × (Fn F × Wr F) × (Fn F × Wr F)) := do
+  let m ← w.setParameters pi f [(n, x - h)]
+  let p ← m.2.setParameters pi m.1 [(n, x + h)]
+  let z ← p.2.setParameters pi p.1 [(n, x)]
+  pure (m, p, z)
 
 def wD1 (c : Ctx) (w : W F) (i : Nat) : F := (Reparam.d1 pi c.df w i).getD nan
 def wD2 (c : Ctx) (w : W F) (i : Nat) : F := (Reparam.d2 pi c.df c.d2f w i).getD nan
 def wD2x (c : Ctx) (w : W F) (i j : Nat) : F := (Reparam.d2x pi c.d2f w i j).getD nan
 
 /-- finite-difference shadow of `chain_rule_1` / `chain_rule_2` for coordinate `i` -/
-def wfdOk (c : Ctx) (w0 : W F) (i : Nat) (h : F) (vals : List F) : String :=
+def wfdOk (c : Ctx) (w0 : W F) (i : Nat) (h : F) (vals : List F) (second2 : Bool := true) : String :=
   match vals, w0[i]? with
   | [fm, f0, fp, am, a0, ap, b0], some s =>
     if !(vals.all finite) || !inScope s.tp || !(h > 0.0) then "-" else
@@ -333,7 +358,7 @@ def wfdOk (c : Ctx) (w0 : W F) (i : Nat) (h : F) (vals : List F) : String :=
     let q2 := (ap - am) / (2.0 * h)
     let tol2 := 1e-3 * (fabs b0 + d2fi * t1 * t1 + 2.0 * dfi * t1 / sc)
       + 32.0 * eps * (fmax (fabs am) (fabs ap) + magI * d2fi * t1 + magI * dfi / sc) / h + absFloor
-    if second && !(fabs (q2 - b0) ≤ tol2) then "FAIL:chain_rule_2" else "ok"
+    if second2 && second && !(fabs (q2 - b0) ≤ tol2) then "FAIL:chain_rule_2" else "ok"
   | _, _ => "FAIL:parse"
 
 def wfdxOk (c : Ctx) (w0 : W F) (i j : Nat) (h : F) (vals : List F) : String :=
@@ -349,45 +374,211 @@ def wfdxOk (c : Ctx) (w0 : W F) (i j : Nat) (h : F) (vals : List F) : String :=
     if !(fabs (q - c0) ≤ tol) then "FAIL:chain_rule_2_cross" else "ok"
   | _, _, _ => "FAIL:parse"
 
-/-- `sel` of `w.newsub`: comma separated function indices (`f` = a foreign parameter, which the
-constructor ignores, h:48-50); `none` when an index is out of range or repeated -/
-def parseSel (n : Nat) (s : String) : Option (List Nat) :=
-  let toks := (s.splitOn ",").filter (· != "f")
-  match toks.mapM nat? with
-  | some l => if l.all (· < n) && l.eraseDups.length == l.length then some l else none
+
+/-! ### objects: functions, wrappers, registers -/
+
+/-- `sel` of `w.newsub` / `w.mk`: comma separated items, each a function index `i` (a copy of the
+function's own parameter), `i@<hex>` (the same with another value) or `f` (a foreign parameter, which
+the constructor ignores, h:48-50); `none` when an index is out of range or repeated -/
+def parseSel (n : Nat) (s : String) : Option (List (Option (Nat × Option F))) :=
+  let items := (s.splitOn ",").map (fun tok =>
+    if tok == "f" then some none
+    else match tok.splitOn "@" with
+      | [i] => (nat? i).map (fun i => some (i, none))
+      | [i, v] => match nat? i, fl? v with
+        | some i, some v => some (some (i, some v))
+        | _, _ => none
+      | _ => none)
+  match items.mapM id with
   | none => none
+  | some l =>
+    let idx := l.filterMap (fun o => o.map (·.1))
+    if idx.all (· < n) && idx.eraseDups.length == idx.length then some l else none
 
-/-- both constructors: the function is built, then the wrapper over the parameters `sel` -/
-def doNew (s : St) (impl : Option (List String)) (l : List ((Shape F × F) × Coef F)) (sel : List Nat) :
+/-- the name of the foreign parameter `zz` -/
+def foreignName : Nat := 1000000
+
+def dropAll (s : St) : St := { t := s.t }
+
+def showNats (l : List Nat) : String := " ".intercalate (l.map toString)
+
+/-- register `k`: index in the world, class, wrapper, its function, the function's coefficients -/
+def getW (s : St) (k : Nat) : Option (Nat × Nat × Wr F × Fn F × List (Coef F)) :=
+  match s.wreg[k]? with
+  | some (some (wi, cls)) =>
+    match s.world.ws[wi]? with
+    | some w =>
+      match s.world.fns[w.fn]?, s.cs[w.fn]? with
+      | some f, some cs => some (wi, cls, w, f, cs)
+      | _, _ => none
+    | none => none
+  | _ => none
+
+/-- the slot-model context of a wrapper over its function *now*: the wrapper's coordinates stand for
+the function's parameters `w.names` (names are the function's indices), the other parameters of the
+function stand where they are -/
+def ctxOf (f : Fn F) (w : Wr F) (cs : List (Coef F)) : Ctx := { cs := cs, sel := w.names, base := f.vals }
+
+def wfOf (w : Wr F) : Bool := w.fps.all (fun p => quantOk p.shape)
+
+def setWorld (s : St) (wi : Nat) (f' : Fn F) (w' : Wr F) : St :=
+  { s with world := { fns := s.world.fns.set w'.fn f', ws := s.world.ws.set wi w' } }
+
+/-- dump of a wrapper's private state: `cls same ; names of parameters_ ; names of
+functionParameters_ ; transformed values ; values of functionParameters_` -/
+def dumpW (cls : Nat) (w : Wr F) : String :=
+  toString cls ++ " 1 ; " ++ showNats w.names ++ " ; " ++ showNats w.fpNames ++ " ; " ++
+    shs (w.params.map (·.2.x)) ++ " ; " ++ shs (w.fps.map (·.value))
+
+def closeRel (a b : F) : Bool :=
+  sh a == sh b || fabs (a - b) ≤ (Float.ofScientific 1 true 0 / 1099511627776.0) * fmax (fabs a) (fabs b)
+
+/-- verdict of a copy / clone / assignment (`copy_carries`, `assign_carries`): the implementation's
+copy shares the function, is aligned (`alignedNames`, the predicate of `every_wrapper_aligned`) and
+carries the source's names, transformed values and private copy -/
+def copyVerdict (impl : Option (List String)) (src : Wr F) : String :=
+  match impl with
+  | none => "-"
+  | some t =>
+    match splitSemi t with
+    | [[_, same], pn, fpn, xs, fpv] =>
+      match pn.mapM nat?, fpn.mapM nat? with
+      | some pn, some fpn =>
+        if same != "1" then "FAIL:copy_carries"
+        else if !(alignedNames pn fpn) then "FAIL:copy_carries"
+        else if pn != src.names then "FAIL:copy_carries"
+        else
+          -- same transformed values and same private copy (up to 2^-40 relative: a copy made by
+          -- another route than member-wise copy may differ by rounding; the bitwise comparison is the
+          -- correspondence check's)
+          match fls? xs, fls? fpv with
+          | some xs, some fpv =>
+            if xs.length != src.params.length || fpv.length != src.fps.length then "FAIL:copy_carries"
+            else if !((xs.zip (src.params.map (·.2.x))).all (fun (a, b) => closeRel a b)) then "FAIL:copy_carries"
+            else if !((fpv.zip (src.fps.map (·.value))).all (fun (a, b) => closeRel a b)) then "FAIL:copy_carries"
+            else "ok"
+          | _, _ => "FAIL:parse"
+      | _, _ => "FAIL:parse"
+    | _ => "FAIL:copy_carries"
+
+/-- both constructors: the wrapper is built over function register `g` into wrapper register `k` -/
+def doMk (s : St) (impl : Option (List String)) (k g cls : Nat) (sel : Option (List (Option (Nat × Option F)))) :
     St × String × String :=
+  match s.freg[g]? with
+  | some (some fi) =>
+    match s.world.fns[fi]? with
+    | none => (s, "bad-op", "-")
+    | some f =>
+      let all := f.ps.map (fun p => (p.shape, p.value))
+      -- the list given to the second constructor
+      let given : Option (List (FParam F)) := sel.map (fun l => l.filterMap (fun o =>
+        match o with
+        | none => some { name := foreignName, shape := Shape.none, value := 1.0 }
+        | some (i, ov) => (f.ps[i]?).map (fun p => { p with value := ov.getD p.value })))
+      -- `Parameter(name, value, constraint)` of an overridden value raises on an incorrect value
+      if (given.getD []).any (fun p => !(p.shape.isCorrect p.value)) then (dropAll s, "exc:constraint", "-") else
+      let agree := (sel.getD []).all (fun o => match o with | some (_, some _) => false | _ => true)
+      let r := match given with
+        | none => Wr.newFull pi tiny fi f
+        | some gl => Wr.newSub pi tiny fi f gl
+      match r with
+      | .ok w =>
+        let ps := w.fps.map (fun p => (p.shape, p.value))
+        let out := shs (w.params.map (·.2.x)) ++ " ; " ++ shs (w.params.map (fun p => p.2.getOriginal pi)) ++ " ; " ++ shs f.vals
+        let wi := s.world.ws.length
+        ({ s with world := { s.world with ws := s.world.ws ++ [w] }, wreg := s.wreg.set! k (some (wi, cls)) },
+          out, newWVerdict impl ps all agree)
+      | .error e =>
+        -- `wrap_preserves_values`: over the reals wrapping never raises on accepted values
+        let ok := match given with
+          | none => f.ps.all (fun p => quantOk p.shape)
+          | some gl => (common f gl).all (fun p => quantOk p.shape) && agree
+        (dropAll s, excStr e, match impl with | some _ => if ok then "FAIL:wrap_preserves_values" else "-" | none => "-")
+  | _ => (s, "bad-op", "-")
+
+/-- a new function object in register `g`; `exc:constraint` when the function's own
+`Parameter(name, value, constraint)` rejects an initial value -/
+def doNewFn (s : St) (g : Nat) (l : List ((Shape F × F) × Coef F)) : St × String × String :=
   let all := l.map (·.1)
-  let c : Ctx := { cs := l.map (·.2), sel := sel, base := all.map (·.2) }
-  -- the function's own `Parameter(name, value, constraint)` raises on an incorrect value
-  if !(all.all (fun (shp, v) => shp.isCorrect v)) then ({ s with w := none }, "exc:constraint", "-") else
-  let ps := sel.filterMap (fun i => all[i]?)
-  let ok := ps.all (fun (shp, _) => quantOk shp)
-  match Reparam.init pi tiny ps with
-  | .ok w =>
-    let out := shs (w.map (·.tp.x)) ++ " ; " ++ shs (w.map (fun s => s.tp.getOriginal pi)) ++ " ; " ++ shs c.base
-    ({ s with w := some (w, c), wf := ok }, out, newWVerdict impl c all)
-  | .error e =>
-    -- `wrap_preserves_values`: over the reals wrapping never raises on accepted values
-    ({ s with w := none }, excStr e,
-      match impl with | some _ => if ok then "FAIL:wrap_preserves_values" else "-" | none => "-")
+  if !(all.all (fun (shp, v) => shp.isCorrect v)) then (dropAll s, "exc:constraint", "-") else
+  let ps : List (FParam F) := (List.range all.length).zipWith (fun i (p : Shape F × F) => { name := i, shape := p.1, value := p.2 }) all
+  let fi := s.world.fns.length
+  ({ s with world := { s.world with fns := s.world.fns ++ [{ ps := ps }] }, cs := s.cs.push (l.map (·.2)),
+            freg := s.freg.set! g (some fi) }, "ok", "-")
 
-/-- `f(parameters)` with the update `updF` aligned with the function's parameters -/
-def doSet (s : St) (impl : Option (List String)) (w : W F) (c : Ctx) (updF : List (Option F)) :
-    St × String × String :=
-  match c.toW updF with
-  | none => ({ s with w := none }, "exc:notfound", "-")
-  | some upd =>
-    match Reparam.set pi w upd with
-    | .ok w' =>
-      let out := sh (Reparam.value c.f w') ++ " ; " ++ shs (c.expand (fnVals w')) ++ " ; " ++ shs (w'.map (·.fp))
-      ({ s with w := some (w', c) }, out, setVerdict impl c w w' upd s.wf)
+/-- `f(parameters)` through wrapper register `k` with the named values `pl` -/
+def doSet (s : St) (impl : Option (List String)) (k : Nat) (pl : List (Nat × F)) : St × String × String :=
+  match getW s k with
+  | none => (s, "bad-op", "-")
+  | some (wi, _, w, f, cs) =>
+    let wf := wfOf w
+    let named := pl.all (fun (n, _) => w.names.contains n)
+    match w.setParameters pi f pl with
+    | .ok (f', w') =>
+      let out := sh (Poly.f cs f'.vals) ++ " ; " ++ shs f'.vals ++ " ; " ++ shs (w'.fps.map (·.value))
+      let verdict := match w.view? f, w'.view? f' with
+        | some before, some after => setVerdict impl (ctxOf f w cs) before after (updOf w.params pl) wf
+        | _, _ => "-"
+      (setWorld s wi f' w', out, verdict)
     | .error e =>
-      -- `set_never_raises`: over the reals a well-formed wrapper never raises
-      ({ s with w := none }, excStr e, match impl with | some _ => "FAIL:set_never_raises" | none => "-")
+      -- `set_never_raises`: over the reals a well-formed wrapper never raises on its own names
+      (dropAll s, excStr e, match impl with | some _ => if named && wf then "FAIL:set_never_raises" else "-" | none => "-")
+
+/-- verdict of an inherited setter (`inherited_setters_stay_private`): the function does not move, the
+wrapper's private copy of every refreshed coordinate is the back-transformed value -/
+def privVerdict (impl : Option (List String)) (f : Fn F) (w' : Wr F) (fired : Bool) (wf : Bool) : String :=
+  match impl with
+  | none => "-"
+  | some ("exc:constraint" :: _) => if wf then "FAIL:set_never_raises" else "-"
+  | some t =>
+    match splitSemi t with
+    | [[_], full, fps] =>
+      match fls? full, fls? fps with
+      | some full, some fps =>
+        if shs full != shs f.vals then "FAIL:inherited_private"
+        else if fps.length != w'.params.length then "FAIL:parse"
+        else if wf && fired && !(((w'.params.zip w'.fps).zip fps).all (fun ((p, fp), x) =>
+            fabs (x - p.2.getOriginal pi) ≤ two44 * shapeMag fp.shape x)) then "FAIL:inherited_private"
+        else "ok"
+      | _, _ => "FAIL:parse"
+    | _ => "FAIL:parse"
+
+def doPriv (s : St) (impl : Option (List String)) (k : Nat) (r : Wr F → Except Exc (Wr F)) (fired : Wr F → Bool) :
+    St × String × String :=
+  match getW s k with
+  | none => (s, "bad-op", "-")
+  | some (wi, _, w, f, cs) =>
+    match r w with
+    | .ok w' =>
+      let out := sh (Poly.f cs f.vals) ++ " ; " ++ shs f.vals ++ " ; " ++ shs (w'.fps.map (·.value))
+      ({ s with world := { s.world with ws := s.world.ws.set wi w' } }, out, privVerdict impl f w' (fired w) (wfOf w))
+    | .error e => (dropAll s, excStr e, "-")
+
+/-- `{i x}*` as named values (any order, no repetition) -/
+def parsePl : List String → Option (List (Nat × F))
+  | [] => some []
+  | i :: x :: rest =>
+    match nat? i, fl? x, parsePl rest with
+    | some i, some x, some l => if l.any (·.1 == i) then none else some ((i, x) :: l)
+    | _, _, _ => none
+  | _ => none
+
+def polyDfE (cs : List (Coef F)) : List F → Nat → F := fun p i => polyDf cs p i
+def polyD2fE (cs : List (Coef F)) : List F → Nat → Nat → F := fun p i j => polyD2f cs p i j
+
+def oD1 (cs : List (Coef F)) (f : Fn F) (w : Wr F) (n : Nat) : F :=
+  match w.d1 pi (polyDfE cs) f n with | .ok x => x | .error _ => nan
+def oD2 (cs : List (Coef F)) (f : Fn F) (w : Wr F) (n : Nat) : F :=
+  match w.d2 pi (polyDfE cs) (polyD2fE cs) f n with | .ok x => x | .error _ => nan
+def oD2x (cs : List (Coef F)) (f : Fn F) (w : Wr F) (n m : Nat) : F :=
+  match w.d2x pi (polyD2fE cs) f n m with | .ok x => x | .error _ => nan
+
+/-- a derivative with respect to a parameter the wrapper has is defined (`obj_chain_rule_*`: the
+model returns a value): an exception of the implementation there is a failing input -/
+def derivDefined (impl : Option (List String)) : String :=
+  match impl with
+  | some (t :: _) => if t.startsWith "exc:" then "FAIL:derivative_defined" else "-"
+  | _ => "-"
 
 def step (s : St) (op : List String) (impl : Option (List String)) : St × String × String :=
   match op with
@@ -514,100 +705,264 @@ def step (s : St) (op : List String) (impl : Option (List String)) : St × Strin
         ({ s with t := s.t.set! k (some p0) }, out, verdict)
       | _ => (s, "bad-op", "-")
     | _, _, _ => (s, "bad-op", "-")
+  | ["t.clone", k, j] =>
+    -- `clone()` of a transformed parameter: an independent copy with all its fields
+    match nat? k, nat? j with
+    | some k, some j =>
+      if k ≥ 4 then (s, "bad-op", "-") else
+      match s.t[j]? with
+      | some (some p) =>
+        let vals := [p.x, p.getOriginal pi, p.d1 pi, p.d2 pi]
+        -- the clone carries the transformed value and every field of the transform: the same
+        -- coordinate, original value and derivatives as the source
+        let verdict := match impl with
+          | some t => match fls? t with
+            | some iv =>
+              if iv.length != 4 then "FAIL:parse"
+              else if (iv.zip vals).all (fun (a, b) => closeRel a b)
+              then "ok" else "FAIL:clone_carries"
+            | none => "FAIL:parse"
+          | none => "-"
+        ({ s with t := s.t.set! k (some p) }, shs vals, verdict)
+      | _ => (s, "bad-op", "-")
+    | _, _ => (s, "bad-op", "-")
   | "w.new" :: n :: rest =>
     match nat? n, parseParams rest with
     | some n, some l =>
-      if l.length != n then (s, "bad-op", "-") else doNew s impl l (List.range n)
+      if l.length != n then (s, "bad-op", "-") else
+      match doNewFn (dropAll s) 0 l with
+      | (s1, "ok", _) => doMk { s1 with cur := 0 } impl 0 0 2 none
+      | r => r
     | _, _ => (s, "bad-op", "-")
   | "w.newsub" :: n :: sel :: rest =>
     match nat? n, parseParams rest with
     | some n, some l =>
       if l.length != n then (s, "bad-op", "-") else
       match parseSel n sel with
-      | some sel => doNew s impl l sel
+      | some sel =>
+        match doNewFn (dropAll s) 0 l with
+        | (s1, "ok", _) => doMk { s1 with cur := 0 } impl 0 0 2 (some sel)
+        | r => r
       | none => (s, "bad-op", "-")
     | _, _ => (s, "bad-op", "-")
+  | "f.new" :: g :: n :: rest =>
+    match nat? g, nat? n, parseParams rest with
+    | some g, some n, some l => if l.length != n || g ≥ 2 then (s, "bad-op", "-") else doNewFn s g l
+    | _, _, _ => (s, "bad-op", "-")
+  | ["w.mk", k, g, cls, sel] =>
+    match nat? k, nat? g, nat? cls with
+    | some k, some g, some cls =>
+      if k ≥ 4 || g ≥ 2 || cls ≥ 3 then (s, "bad-op", "-") else
+      match s.freg[g]? with
+      | some (some fi) =>
+        let n := match s.world.fns[fi]? with | some f => f.ps.length | none => 0
+        if sel == "all" then doMk s impl k g cls none
+        else match parseSel n sel with
+          | some l => doMk s impl k g cls (some l)
+          | none => (s, "bad-op", "-")
+      | _ => (s, "bad-op", "-")
+    | _, _, _ => (s, "bad-op", "-")
+  | ["w.use", k] =>
+    match nat? k with
+    | some k => if (getW s k).isSome then ({ s with cur := k }, "ok", "-") else (s, "bad-op", "-")
+    | none => (s, "bad-op", "-")
   | "w.set" :: m :: rest =>
-    match s.w, nat? m with
-    | some (w, c), some m =>
-      if rest.length != 2 * m then (s, "bad-op", "-") else
-      match parseUpd c.base.length rest with
-      | none => (s, "bad-op", "-")
-      | some updF => doSet s impl w c updF
+    match nat? m, parsePl rest with
+    | some m, some pl => if pl.length != m then (s, "bad-op", "-") else doSet s impl s.cur pl
     | _, _ => (s, "bad-op", "-")
   | "w.touch" :: m :: rest =>
     -- `f()` with the current values of the named coordinates: nothing changes in the wrapper
-    match s.w, nat? m, rest.mapM nat? with
-    | some (w, c), some m, some idx =>
-      let incr := (idx.zip (idx.drop 1)).all (fun (a, b) => a < b)
-      if idx.length != m || !incr || !(idx.all (· < c.base.length)) then (s, "bad-op", "-") else
-      let updF := (List.range c.base.length).map (fun j =>
-        if idx.contains j then
-          (match c.slotOf j with | some k => (w[k]?).map (·.tp.x) | none => some 0.0)
-        else none)
-      doSet s impl w c updF
+    match getW s s.cur, nat? m, rest.mapM nat? with
+    | some (_, _, w, _, _), some m, some idx =>
+      if idx.length != m || idx.eraseDups.length != idx.length then (s, "bad-op", "-") else
+      -- the harness reads the current values through the wrapper: a name it does not have raises there
+      match idx.mapM (fun n => (findTP n w.params).map (fun tp => (n, tp.x))) with
+      | some pl => doSet s impl s.cur pl
+      | none => (dropAll s, "exc:notfound", "-")
     | _, _, _ => (s, "bad-op", "-")
+  | ["w.fire"] =>
+    -- `fireParameterChanged` called directly (it is public): every private copy is refreshed; this is
+    -- `setParametersValues` of the empty list
+    doPriv s impl s.cur (fun w => w.setValues pi []) (fun _ => true)
+  | ["w.names"] =>
+    -- names of `parameters_` and of `functionParameters_`: `every_wrapper_aligned`
+    match getW s s.cur with
+    | some (_, _, w, _, _) =>
+      let verdict := match impl with
+        | some t => match splitSemi t with
+          | [pn, fpn] => match pn.mapM nat?, fpn.mapM nat? with
+            | some pn, some fpn => if alignedNames pn fpn && pn == w.names then "ok" else "FAIL:every_wrapper_aligned"
+            | _, _ => "FAIL:parse"
+          | _ => "FAIL:parse"
+        | none => "-"
+      (s, showNats w.names ++ " ; " ++ showNats w.fpNames, verdict)
+    | none => (s, "bad-op", "-")
+  | ["w.get"] =>
+    match getW s s.cur with
+    | some (_, _, _, f, cs) =>
+      let v := sh (Poly.f cs f.vals)
+      -- `getValue()` is the function where it stands (`wrap_f_eq`), reading it moves nothing, and
+      -- `getFunction()` is the shared function object
+      let verdict := match impl with
+        | some t => match splitSemi t with
+          | [[a], [b], [same], full] =>
+            match fls? full with
+            | some full =>
+              if same != "1" then "FAIL:copy_carries"
+              else if shs full != shs f.vals then "FAIL:get_is_pure"
+              else if a != sh (Poly.f cs full) || b != a then "FAIL:wrap_f_eq"
+              else "ok"
+            | none => "FAIL:parse"
+          | _ => "FAIL:parse"
+        | none => "-"
+      (s, v ++ " ; " ++ v ++ " ; 1 ; " ++ shs f.vals, verdict)
+    | none => (s, "bad-op", "-")
   | ["w.d1", i] =>
-    match s.w, nat? i with
-    | some (w, c), some i =>
-      if i ≥ c.base.length then (s, "bad-op", "-") else
-      match c.slotOf i with
-      | some k => (s, sh (wD1 c w k), "-")
-      | none => ({ s with w := none }, "exc:notfound", "-")
+    match getW s s.cur, nat? i with
+    | some (_, cls, w, f, cs), some i =>
+      if cls < 1 || i ≥ f.ps.length then (s, "bad-op", "-") else
+      match w.d1 pi (polyDfE cs) f i with
+      | .ok x => (s, sh x, derivDefined impl)
+      | .error e => (dropAll s, excStr e, "-")
     | _, _ => (s, "bad-op", "-")
-  | ["w.d2", i, j] =>
-    match s.w, nat? i, nat? j with
-    | some (w, c), some i, some j =>
-      if i ≥ c.base.length || j ≥ c.base.length then (s, "bad-op", "-") else
-      match c.slotOf i, c.slotOf j with
-      | some k, some k' => (s, sh (if k == k' then wD2 c w k else wD2x c w k k'), "-")
-      | _, _ => ({ s with w := none }, "exc:notfound", "-")
-    | _, _, _ => (s, "bad-op", "-")
-  | ["w.fd", i, h] =>
-    match s.w, nat? i, fl? h with
-    | some (w, c), some i, some h =>
-      if i ≥ c.base.length then (s, "bad-op", "-") else
-      match c.slotOf i with
-      | none => ({ s with w := none }, "exc:notfound", "-")
-      | some i =>
-      match w[i]? with
-      | none => (s, "bad-op", "-")
-      | some si =>
-        match probe3 w i si.tp.x h with
-        | .error e => ({ s with w := none }, excStr e, match impl with | some _ => "FAIL:set_never_raises" | none => "-")
-        | .ok (wm, wp, w0) =>
-          let vals := [Reparam.value c.f wm, Reparam.value c.f w0, Reparam.value c.f wp,
-            wD1 c wm i, wD1 c w0 i, wD1 c wp i, wD2 c w0 i]
-          let verdict := match impl with
-            | some ("exc:constraint" :: _) => "FAIL:set_never_raises"
-            | some t => match fls? t with
-              | some iv => wfdOk c w0 i h iv
-              | none => "FAIL:parse"
-            | none => "-"
-          ({ s with w := some (w0, c) }, shs vals, verdict)
-    | _, _, _ => (s, "bad-op", "-")
   | ["w.fdx", i, j, h] =>
-    match s.w, nat? i, nat? j, fl? h with
-    | some (w, c), some i, some j, some h =>
-      if i ≥ c.base.length || j ≥ c.base.length || i == j then (s, "bad-op", "-") else
-      match c.slotOf i, c.slotOf j with
-      | some i, some j =>
-      (match w[i]?, w[j]? with
-      | some _, some sj =>
-        match probe3 w j sj.tp.x h with
-        | .error e => ({ s with w := none }, excStr e, match impl with | some _ => "FAIL:set_never_raises" | none => "-")
-        | .ok (wm, wp, w0) =>
-          let vals := [wD1 c wm i, wD1 c wp i, wD2x c w0 i j]
+    match getW s s.cur, nat? i, nat? j, fl? h with
+    | some (wi, cls, w, f, cs), some i, some j, some h =>
+      if cls < 2 || i ≥ f.ps.length || j ≥ f.ps.length || i == j then (s, "bad-op", "-") else
+      match findTP i w.params, findTP j w.params with
+      | some _, some tj =>
+        match probe3 f w j tj.x h with
+        | .error e => (dropAll s, excStr e, match impl with | some _ => if wfOf w then "FAIL:set_never_raises" else "-" | none => "-")
+        | .ok ((fm, wm), (fp, wp), (f0, w0)) =>
+          let vals := [oD1 cs fm wm i, oD1 cs fp wp i, oD2x cs f0 w0 i j]
           let verdict := match impl with
-            | some ("exc:constraint" :: _) => "FAIL:set_never_raises"
-            | some t => match fls? t with
-              | some iv => wfdxOk c w0 i j h iv
-              | none => "FAIL:parse"
+            | some ("exc:constraint" :: _) => if wfOf w then "FAIL:set_never_raises" else "-"
+            | some t => match fls? t, w0.view? f0, w0.names.findIdx? (· == i), w0.names.findIdx? (· == j) with
+              | some iv, some v0, some si, some sj => wfdxOk (ctxOf f0 w0 cs) v0 si sj h iv
+              | _, _, _, _ => if derivDefined impl == "-" then "FAIL:parse" else derivDefined impl
             | none => "-"
-          ({ s with w := some (w0, c) }, shs vals, verdict)
-      | _, _ => (s, "bad-op", "-"))
-      | _, _ => ({ s with w := none }, "exc:notfound", "-")
+          (setWorld s wi f0 w0, shs vals, verdict)
+      | _, _ => (dropAll s, "exc:notfound", "-")
     | _, _, _, _ => (s, "bad-op", "-")
+  | "w.all" :: rest =>
+    -- `setAllParametersValues` with every parameter of the wrapper, values in the wrapper's order
+    match getW s s.cur, fls? rest with
+    | some (_, _, w, _, _), some xs =>
+      if xs.length != w.params.length then (s, "bad-op", "-") else
+      doPriv s impl s.cur (fun w => w.setAllValues pi (w.names.zip xs)) (fun _ => true)
+    | _, _ => (s, "bad-op", "-")
+  | "w.match" :: m :: rest =>
+    match nat? m, parsePl rest with
+    | some m, some pl =>
+      if pl.length != m then (s, "bad-op", "-") else
+      doPriv s impl s.cur (fun w => w.matchValues pi pl) (fun w => w.params.any (changedTP pl))
+    | _, _ => (s, "bad-op", "-")
+  | "w.pvs" :: m :: rest =>
+    match nat? m, parsePl rest with
+    | some m, some pl =>
+      if pl.length != m then (s, "bad-op", "-") else
+      doPriv s impl s.cur (fun w => w.setValues pi pl) (fun _ => true)
+    | _, _ => (s, "bad-op", "-")
+  | "f.set" :: g :: m :: rest =>
+    -- the owner of the function moves it directly (original coordinates, the function's constraints)
+    match nat? g, nat? m, parsePl rest with
+    | some g, some m, some pl =>
+      if pl.length != m then (s, "bad-op", "-") else
+      match s.freg[g]? with
+      | some (some fi) =>
+        match s.world.fns[fi]?, s.cs[fi]? with
+        | some f, some cs =>
+          if !(pl.all (fun (n, _) => n < f.ps.length)) then (s, "bad-op", "-") else
+          match f.matchValues (pl.map (fun (n, x) => { name := n, shape := Shape.none, value := x })) with
+          | .ok f' =>
+            ({ s with world := { s.world with fns := s.world.fns.set fi f' } },
+              sh (Poly.f cs f'.vals) ++ " ; " ++ shs f'.vals, "-")
+          | .error e => (dropAll s, excStr e, "-")
+        | _, _ => (s, "bad-op", "-")
+      | _ => (s, "bad-op", "-")
+    | _, _, _ => (s, "bad-op", "-")
+  | [o, k, j] =>
+    if o == "w.clone" || o == "w.copy" || o == "w.assign" then
+      match nat? k, nat? j with
+      | some k, some j =>
+        if k ≥ 4 then (s, "bad-op", "-") else
+        match getW s j with
+        | none => (s, "bad-op", "-")
+        | some (wj, clsj, src, _, _) =>
+          if o == "w.assign" then
+            match getW s k with
+            | none => (s, "bad-op", "-")
+            | some (wk, clsk, _, _, _) =>
+              match s.world.step pi tiny (.assign wk wj) with
+              | .ok σ' =>
+                match σ'.ws[wk]? with
+                | some a => ({ s with world := σ' }, dumpW clsk a, copyVerdict impl src)
+                | none => (s, "bad-op", "-")
+              | .error e => (dropAll s, excStr e, "-")
+          else
+            match s.world.step pi tiny (.copy wj) with
+            | .ok σ' =>
+              let ci := s.world.ws.length
+              match σ'.ws[ci]? with
+              | some c => ({ s with world := σ', wreg := s.wreg.set! k (some (ci, clsj)) }, dumpW clsj c, copyVerdict impl src)
+              | none => (s, "bad-op", "-")
+            | .error e => (dropAll s, excStr e, "-")
+      | _, _ => (s, "bad-op", "-")
+    else if o == "w.d2" then
+      match getW s s.cur, nat? k, nat? j with
+      | some (_, cls, w, f, cs), some i, some j =>
+        if cls < 2 || i ≥ f.ps.length || j ≥ f.ps.length then (s, "bad-op", "-") else
+        let r := if i == j then w.d2 pi (polyDfE cs) (polyD2fE cs) f i else w.d2x pi (polyD2fE cs) f i j
+        match r with
+        | .ok x => (s, sh x, derivDefined impl)
+        | .error e => (dropAll s, excStr e, "-")
+      | _, _, _ => (s, "bad-op", "-")
+    else if o == "w.fd" || o == "w.fd1" then
+      let second := o == "w.fd"
+      match getW s s.cur, nat? k, fl? j with
+      | some (wi, cls, w, f, cs), some n, some h =>
+        if cls < (if second then 2 else 1) || n ≥ f.ps.length then (s, "bad-op", "-") else
+        match findTP n w.params with
+        | none => (dropAll s, "exc:notfound", "-")
+        | some tp0 =>
+          match probe3 f w n tp0.x h with
+          | .error e => (dropAll s, excStr e, match impl with | some _ => if wfOf w then "FAIL:set_never_raises" else "-" | none => "-")
+          | .ok ((fm, wm), (fp, wp), (f0, w0)) =>
+            let b0 := if second then oD2 cs f0 w0 n else 0.0
+            let vals := [Poly.f cs fm.vals, Poly.f cs f0.vals, Poly.f cs fp.vals,
+              oD1 cs fm wm n, oD1 cs f0 w0 n, oD1 cs fp wp n, b0]
+            let verdict := match impl with
+              | some ("exc:constraint" :: _) => if wfOf w then "FAIL:set_never_raises" else "-"
+              | some t => match fls? t, w0.view? f0, w0.names.findIdx? (· == n) with
+                | some iv, some v0, some slot => wfdOk (ctxOf f0 w0 cs) v0 slot h iv second
+                | _, _, _ => if derivDefined impl == "-" then "FAIL:parse" else derivDefined impl
+              | none => "-"
+            (setWorld s wi f0 w0, shs vals, verdict)
+      | _, _, _ => (s, "bad-op", "-")
+    else if o == "w.pv" then
+      match nat? k, fl? j with
+      | some n, some x => doPriv s impl s.cur (fun w => w.setValue pi n x) (fun _ => true)
+      | _, _ => (s, "bad-op", "-")
+    else if o == "w.en" then
+      let which := k
+      let yn := j
+      -- `enableFirstOrderDerivatives(yn)` / `enableSecondOrderDerivatives(yn)` through the wrapper (h:149, h:203)
+      match getW s s.cur with
+      | some (_, cls, w, f, _) =>
+        let b := yn == "1"
+        if which == "1" && cls ≥ 1 then
+          let f' := f.enableFirst b
+          let out := showBool f'.d1on ++ " " ++ showBool f'.d1on ++ " " ++ showBool f'.d2on
+          ({ s with world := { s.world with fns := s.world.fns.set w.fn f' } }, out,
+            match impl with | some t => if " ".intercalate t == out then "ok" else "FAIL:enable_delegates" | none => "-")
+        else if which == "2" && cls ≥ 2 then
+          let f' := f.enableSecond b
+          let out := showBool f'.d2on ++ " " ++ showBool f'.d1on ++ " " ++ showBool f'.d2on
+          ({ s with world := { s.world with fns := s.world.fns.set w.fn f' } }, out,
+            match impl with | some t => if " ".intercalate t == out then "ok" else "FAIL:enable_delegates" | none => "-")
+        else (s, "bad-op", "-")
+      | none => (s, "bad-op", "-")
+    else (s, "bad-op", "-")
   | _ => (s, "bad-op", "-")
 
 def machine : Machine St := { init := fun _ => {}, step := step }
